@@ -1,5 +1,6 @@
 (* C09: scaled Fourier transforms of model/Fourier.v are inverse pairs, linear, obey Parseval, and are
-   centred for even N -- real/complex-number reading, all lengths N >= 1, all batch shapes. *)
+   centred (origin on sample N/2, floor, in both domains) -- real/complex-number reading, all lengths
+   N >= 1 (odd and even), all batch shapes. *)
 From Coq Require Import Reals Lra Lia ZArith List Arith Psatz.
 Require Import AOV.base.Num AOV.base.NumR AOV.base.RpowTac AOV.base.Cplx AOV.model.Fourier
                AOV.proofs.Dft_proofs.
@@ -37,11 +38,11 @@ Lemma ift_ft x delta delta_f : delta_f * INR (length x) * delta = 1 ->
   ift O (ft O x delta) delta_f = x.
 Proof.
   intros H. unfold ift, ft, cscale_l.
-  rewrite nlen_INR, map_length, fftshift_length, dft_length, fftshift_length.
+  rewrite nlen_INR, map_length, fftshift_length, dft_length, ifftshift_length.
   rewrite <- map_ifftshift, ifftshift_fftshift.
-  change (map (cscale O delta) (dft O (fftshift x))) with (cscale_l O delta (dft O (fftshift x))).
+  change (map (cscale O delta) (dft O (ifftshift x))) with (cscale_l O delta (dft O (ifftshift x))).
   rewrite idft_scale, idft_dft. unfold cscale_l.
-  rewrite <- map_ifftshift, ifftshift_fftshift, !map_map.
+  rewrite <- map_fftshift, fftshift_ifftshift', !map_map.
   apply map_id_ext. intros z. apply cscale3. exact H.
 Qed.
 Lemma ft_ift X delta delta_f : delta_f * INR (length X) * delta = 1 ->
@@ -49,9 +50,7 @@ Lemma ft_ift X delta delta_f : delta_f * INR (length X) * delta = 1 ->
 Proof.
   intros H. unfold ift, ft, cscale_l. rewrite nlen_INR.
   rewrite !map_map.
-  rewrite <- map_fftshift, fftshift_ifftshift'.
-  change (map (fun z => cscale O delta_f (cscale O (INR (length X)) z)) (idft O (ifftshift X)))
-    with (map (fun z => cscale O delta_f (cscale O (INR (length X)) z)) (idft O (ifftshift X))).
+  rewrite <- map_ifftshift, ifftshift_fftshift.
   rewrite <- (map_map (cscale O (INR (length X))) (cscale O delta_f)).
   change (map (cscale O delta_f) ?l) with (cscale_l O delta_f l).
   fold (cscale_l O (INR (length X)) (idft O (ifftshift X))).
@@ -133,18 +132,18 @@ Lemma ift2_ft2 r c m delta delta_f : wf_mat r c m -> (0 < r)%nat -> (0 < c)%nat 
 Proof.
   intros Hwf Hr Hc H. unfold ift2.
   assert (Wf : wf_mat r c (ft2 O m delta)).
-  { unfold ft2. apply wf_cscale_m, wf_fftshift2, wf_dft2; try assumption. apply wf_fftshift2; assumption. }
+  { unfold ft2. apply wf_cscale_m, wf_fftshift2, wf_dft2; try assumption. apply wf_ifftshift2; assumption. }
   rewrite (ncols_wf r c _ Wf Hr). unfold ft2.
   rewrite ifftshift2_scale, ifftshift2_fftshift2, idft2_scale.
-  rewrite (idft2_dft2 G K r c) by (try apply wf_fftshift2; assumption).
-  rewrite ifftshift2_scale, ifftshift2_fftshift2.
+  rewrite (idft2_dft2 G K r c) by (try apply wf_ifftshift2; assumption).
+  rewrite fftshift2_scale, fftshift2_ifftshift2.
   apply cscale_m_cancel. apply scale_sq. exact H.
 Qed.
 Lemma ft2_ift2 r c m delta delta_f : wf_mat r c m -> (0 < r)%nat -> (0 < c)%nat ->
   delta_f * INR c * delta = 1 -> ft2 O (ift2 O m delta_f) delta = m.
 Proof.
   intros Hwf Hr Hc H. unfold ft2, ift2. rewrite (ncols_wf r c _ Hwf Hr).
-  rewrite fftshift2_scale, fftshift2_ifftshift2, dft2_scale.
+  rewrite ifftshift2_scale, ifftshift2_fftshift2, dft2_scale.
   rewrite (dft2_idft2 G K r c) by (try apply wf_ifftshift2; assumption).
   rewrite fftshift2_scale, fftshift2_ifftshift2.
   apply cscale_m_cancel. rewrite Rmult_comm. apply scale_sq. exact H.
@@ -181,6 +180,11 @@ Lemma lincomb_fftshift a b u v : length u = length v ->
 Proof. intros H. unfold fftshift. rewrite lincomb_length by exact H. rewrite <- H.
   rewrite lincomb_skipn, lincomb_firstn by exact H. symmetry. apply lincomb_app.
   rewrite !skipn_length. congruence. Qed.
+Lemma lincomb_ifftshift a b u v : length u = length v ->
+  ifftshift (LC a b u v) = LC a b (ifftshift u) (ifftshift v).
+Proof. intros H. unfold ifftshift. rewrite lincomb_length by exact H. rewrite <- H.
+  rewrite lincomb_skipn, lincomb_firstn by exact H. symmetry. apply lincomb_app.
+  rewrite !skipn_length. congruence. Qed.
 Lemma lincomb_scale a b s : forall u v, length u = length v ->
   cscale_l O s (LC a b u v) = LC a b (cscale_l O s u) (cscale_l O s v).
 Proof. unfold lincomb, cscale_l. induction u as [|p u IH]; intros [|q v] H; try discriminate H; [reflexivity|].
@@ -189,11 +193,11 @@ Proof. unfold lincomb, cscale_l. induction u as [|p u IH]; intros [|q v] H; try 
 Lemma ft_linear a b x y delta : length x = length y ->
   ft O (LC a b x y) delta = LC a b (ft O x delta) (ft O y delta).
 Proof.
-  intros H. unfold ft. rewrite lincomb_fftshift by exact H.
-  unfold lincomb at 1. rewrite dft_linear by (rewrite !fftshift_length; exact H).
-  fold (LC a b (dft O (fftshift x)) (dft O (fftshift y))).
-  rewrite lincomb_fftshift by (rewrite !dft_length, !fftshift_length; exact H).
-  apply lincomb_scale. rewrite !fftshift_length, !dft_length, !fftshift_length. exact H.
+  intros H. unfold ft. rewrite lincomb_ifftshift by exact H.
+  unfold lincomb at 1. rewrite dft_linear by (rewrite !ifftshift_length; exact H).
+  fold (LC a b (dft O (ifftshift x)) (dft O (ifftshift y))).
+  rewrite lincomb_fftshift by (rewrite !dft_length, !ifftshift_length; exact H).
+  apply lincomb_scale. rewrite !fftshift_length, !dft_length, !ifftshift_length. exact H.
 Qed.
 
 (* ---- Parseval ---- *)
@@ -201,6 +205,8 @@ Lemma energy_app (a b : list (R * R)) : energy O (a ++ b) = energy O a + energy 
 Proof. unfold energy. rewrite map_app. apply nsum_R_app. Qed.
 Lemma energy_fftshift (l : list (R * R)) : energy O (fftshift l) = energy O l.
 Proof. unfold fftshift. rewrite energy_app, Rplus_comm, <- energy_app, firstn_skipn. reflexivity. Qed.
+Lemma energy_ifftshift (l : list (R * R)) : energy O (ifftshift l) = energy O l.
+Proof. unfold ifftshift. rewrite energy_app, Rplus_comm, <- energy_app, firstn_skipn. reflexivity. Qed.
 Lemma energy_scale s (l : list (R * R)) : energy O (cscale_l O s l) = s * s * energy O l.
 Proof. unfold energy, cscale_l. rewrite map_map.
   rewrite (map_ext _ (fun z => (s * s) * cabs2 O z)).
@@ -208,16 +214,202 @@ Proof. unfold energy, cscale_l. rewrite map_map.
   - intros [u v]. cbv [cabs2 cscale]; rops; cbn [fst snd]. ring. Qed.
 Lemma parseval_ft x delta delta_f : delta_f * INR (length x) * delta = 1 ->
   energy O (ft O x delta) * delta_f = energy O x * delta.
-Proof. intros H. unfold ft. rewrite energy_scale, energy_fftshift, parseval, fftshift_length, energy_fftshift.
+Proof. intros H. unfold ft. rewrite energy_scale, energy_fftshift, parseval, ifftshift_length, energy_ifftshift.
   ncx. revert H. generalize (INR (length x)) (energy O x). intros n e H.
   transitivity ((delta_f * n * delta) * (e * delta)); [ring|rewrite H; ring]. Qed.
 
-(* ---- centred form, even N: the origin is the centre sample N/2 in both domains ---- *)
+(* ---- centred form, EVERY N >= 1: the origin is the centre sample N/2 (floor) in both domains ---- *)
+Theorem ft_centred_all : forall (x : list (R * R)) N k delta, length x = N -> (k < N)%nat ->
+  nth k (ft O x delta) (czero O)
+  = cscale O delta (bigsum (fun n => cmul O (nth n x (czero O))
+       (cis O (- (2 * PI) * (INR n - INR (N / 2)) * (INR k - INR (N / 2)) / INR N))) N).
+Proof. intros x N k delta Hl Hk. unfold ft, cscale_l.
+  rewrite (nth_map_lt _ _ _ _ (czero O)) by (rewrite fftshift_length, dft_length, ifftshift_length; ncx; lia).
+  f_equal. apply centred_dft_all; assumption. Qed.
+
+(* the even-N statement of the earlier rounds is a special case *)
 Lemma ft_centred (x : list (R * R)) N k delta : length x = N -> Nat.even N = true -> (k < N)%nat ->
   nth k (ft O x delta) (czero O)
   = cscale O delta (bigsum (fun n => cmul O (nth n x (czero O))
        (cis O (- (2 * PI) * (INR n - INR (N / 2)) * (INR k - INR (N / 2)) / INR N))) N).
-Proof. intros Hl He Hk. unfold ft, cscale_l.
-  rewrite (nth_map_lt _ _ _ _ (czero O)) by (rewrite fftshift_length, dft_length, fftshift_length; ncx; lia).
-  f_equal. apply centred_dft; assumption. Qed.
+Proof. intros Hl _ Hk. apply ft_centred_all; assumption. Qed.
+
+Theorem ift_centred_all : forall (X : list (R * R)) N k delta_f, length X = N -> (k < N)%nat ->
+  nth k (ift O X delta_f) (czero O)
+  = cscale O delta_f (bigsum (fun n => cmul O (nth n X (czero O))
+       (cis O (2 * PI * (INR n - INR (N / 2)) * (INR k - INR (N / 2)) / INR N))) N).
+Proof. intros X N k delta_f Hl Hk. unfold ift, cscale_l. rewrite nlen_INR, map_map.
+  assert (HN : 0 < INR N) by (apply lt_0_INR; lia).
+  rewrite (nth_map_lt _ _ _ _ (czero O)) by (rewrite fftshift_length, idft_length, ifftshift_length; ncx; lia).
+  pose proof (centred_idft_all G K X N k Hl Hk) as Hc. ncx. rewrite Hc, Hl. clear Hc.
+  generalize (bigsum (fun n => cmul O (nth n X (czero O))
+       (cis O (2 * PI * (INR n - INR (N / 2)) * (INR k - INR (N / 2)) / INR N))) N).
+  intros [u v]. cbv [cscale]; rops; cbn [fst snd]. f_equal; field; lra. Qed.
+
+(* ---- shift theorem: delaying the input cyclically by s samples multiplies entry k of the spectrum by
+   e^{-2 pi i s (k - N/2)/N} ---- *)
+Theorem ft_shift : forall (x y : list (R * R)) N s k delta,
+  length x = N -> length y = N -> (k < N)%nat ->
+  (forall n, (n < N)%nat -> nth ((n + s) mod N) y (czero O) = nth n x (czero O)) ->
+  nth k (ft O y delta) (czero O)
+  = cmul O (cis O (- (2 * PI) * INR s * (INR k - INR (N / 2)) / INR N)) (nth k (ft O x delta) (czero O)).
+Proof.
+  intros x y N s k delta Hx Hy Hk Hxy.
+  assert (HN0 : N <> 0%nat) by lia.
+  assert (HN : 0 < INR N) by (apply lt_0_INR; lia).
+  rewrite (ft_centred_all y N k delta Hy Hk), (ft_centred_all x N k delta Hx Hk).
+  rewrite <- (bigsum_cyclic_shift G K (fun n => cmul O (nth n y (czero O))
+       (cis O (- (2 * PI) * (INR n - INR (N / 2)) * (INR k - INR (N / 2)) / INR N))) N s).
+  rewrite <- !(bigsum_scale G K), <- (bigsum_mul_l G K). apply (bigsum_ext G K). intros n Hn. cbv beta.
+  rewrite (Hxy n Hn).
+  pose proof (Nat.div_mod (n + s) N HN0) as D. apply (f_equal INR) in D.
+  rewrite !plus_INR, mult_INR in D.
+  set (q := ((n + s) / N)%nat) in *. set (m := ((n + s) mod N)%nat) in *.
+  change (cis O) with E.
+  replace (- (2 * PI) * (INR m - INR (N / 2)) * (INR k - INR (N / 2)) / INR N)
+    with ((- (2 * PI) * INR s * (INR k - INR (N / 2)) / INR N
+           + - (2 * PI) * (INR n - INR (N / 2)) * (INR k - INR (N / 2)) / INR N)
+          + 2 * PI * IZR (Z.of_nat q * (Z.of_nat k - Z.of_nat (N / 2)))).
+  2:{ rewrite mult_IZR, minus_IZR, <- !INR_IZR_INZ.
+      replace (INR m) with (INR n + INR s - INR N * INR q) by lra. field. lra. }
+  rewrite E_period_Z, (E_add G K).
+  generalize (E (- (2 * PI) * INR s * (INR k - INR (N / 2)) / INR N))
+             (E (- (2 * PI) * (INR n - INR (N / 2)) * (INR k - INR (N / 2)) / INR N))
+             (nth n x (czero O)).
+  cring.
+Qed.
+
+(* numpy.roll(x, s), 0 <= s <= N, is such a delay *)
+Definition roll {A} (s : nat) (l : list A) : list A :=
+  skipn (length l - s) l ++ firstn (length l - s) l.
+Lemma roll_length {A} s (l : list A) : length (roll s l) = length l.
+Proof. unfold roll. rewrite app_length, skipn_length, firstn_length. lia. Qed.
+Lemma nth_roll {A} s (l : list A) n d : (s <= length l)%nat -> (n < length l)%nat ->
+  nth ((n + s) mod length l) (roll s l) d = nth n l d.
+Proof.
+  intros Hs Hn. assert (HN0 : length l <> 0%nat) by lia. unfold roll.
+  rewrite nth_rot by (try apply Nat.mod_upper_bound; lia). f_equal.
+  rewrite Nat.add_mod_idemp_l by exact HN0.
+  replace (n + s + (length l - s))%nat with (n + 1 * length l)%nat by lia.
+  rewrite Nat.mod_add by exact HN0. apply Nat.mod_small. exact Hn.
+Qed.
+Corollary ft_roll : forall (x : list (R * R)) N s k delta, length x = N -> (s <= N)%nat -> (k < N)%nat ->
+  nth k (ft O (roll s x) delta) (czero O)
+  = cmul O (cis O (- (2 * PI) * INR s * (INR k - INR (N / 2)) / INR N)) (nth k (ft O x delta) (czero O)).
+Proof.
+  intros x N s k delta Hl Hs Hk. apply ft_shift; try assumption.
+  - rewrite roll_length. exact Hl.
+  - intros n Hn. rewrite <- Hl. apply nth_roll; rewrite Hl; assumption.
+Qed.
+
+(* ---- 2-D centred form, every shape r x c ---- *)
+Lemma ent_map_map2 {A B} (g : A -> B) (dA : A) (dB : B) r c (m : list (list A)) i j :
+  wf_mat r c m -> (i < r)%nat -> (j < c)%nat ->
+  nth j (nth i (map (map g) m) []) dB = g (nth j (nth i m []) dA).
+Proof.
+  intros Hwf Hi Hj. rewrite (nth_map_lt (map g) m i [] []) by (destruct Hwf as [-> _]; exact Hi).
+  apply nth_map_lt. rewrite (wf_nth_length r c m i Hwf Hi). exact Hj.
+Qed.
+Lemma ent_fftshift2_all {A} (d : A) r c (m : list (list A)) y x :
+  wf_mat r c m -> (y < r)%nat -> (x < c)%nat ->
+  nth x (nth y (fftshift2 m) []) d
+  = nth ((x + (c - c / 2)) mod c) (nth ((y + (r - r / 2)) mod r) m []) d.
+Proof.
+  intros Hwf Hy Hx. unfold fftshift2. pose proof Hwf as [Hl _].
+  assert (Hy' : ((y + (r - r / 2)) mod r < r)%nat) by (apply Nat.mod_upper_bound; lia).
+  rewrite nth_fftshift by (rewrite map_length, Hl; exact Hy). rewrite map_length, Hl.
+  rewrite (nth_map_lt fftshift m _ [] []) by (rewrite Hl; exact Hy').
+  rewrite nth_fftshift by (rewrite (wf_nth_length r c m _ Hwf Hy'); exact Hx).
+  rewrite (wf_nth_length r c m _ Hwf Hy'). reflexivity.
+Qed.
+Lemma ent_ifftshift2_all {A} (d : A) r c (m : list (list A)) y x :
+  wf_mat r c m -> (y < r)%nat -> (x < c)%nat ->
+  nth x (nth y (ifftshift2 m) []) d = nth ((x + c / 2) mod c) (nth ((y + r / 2) mod r) m []) d.
+Proof.
+  intros Hwf Hy Hx. unfold ifftshift2. pose proof Hwf as [Hl _].
+  assert (Hy' : ((y + r / 2) mod r < r)%nat) by (apply Nat.mod_upper_bound; lia).
+  rewrite nth_ifftshift by (rewrite map_length, Hl; exact Hy). rewrite map_length, Hl.
+  rewrite (nth_map_lt ifftshift m _ [] []) by (rewrite Hl; exact Hy').
+  rewrite nth_ifftshift by (rewrite (wf_nth_length r c m _ Hwf Hy'); exact Hx).
+  rewrite (wf_nth_length r c m _ Hwf Hy'). reflexivity.
+Qed.
+
+(* entries of a separable 2-D kernel transform *)
+Lemma ent_tr2 Kf r c (m : list (list (R * R))) y x :
+  wf_mat r c m -> (y < r)%nat -> (x < c)%nat ->
+  nth x (nth y (transpose (map (ktr G K Kf) (transpose (map (ktr G K Kf) m)))) []) (czero O)
+  = bigsum (fun i => cmul O
+       (bigsum (fun j => cmul O (nth j (nth i m []) (czero O)) (Kf c j x)) c) (Kf r i y)) r.
+Proof.
+  intros Hwf Hy Hx.
+  assert (Hr : (0 < r)%nat) by lia.
+  assert (W1 : wf_mat r c (map (ktr G K Kf) m)) by (apply wf_map_ktr; exact Hwf).
+  assert (W2 : wf_mat c r (transpose (map (ktr G K Kf) m))) by (apply wf_transpose; assumption).
+  assert (W3 : wf_mat c r (map (ktr G K Kf) (transpose (map (ktr G K Kf) m))))
+    by (apply wf_map_ktr; exact W2).
+  ncx.
+  rewrite (@ent_transpose (R * R) (czero O) c r _ x y W3 Hx Hy).
+  rewrite (ent_map_ktr G K Kf c r _ x y W2 Hx Hy).
+  apply (bigsum_ext G K). intros l Hl. f_equal.
+  rewrite (@ent_transpose (R * R) (czero O) r c _ l x W1 Hl Hx).
+  apply (ent_map_ktr G K Kf r c m l x Hwf Hl Hx).
+Qed.
+
+Lemma Kdft_centred N n k : (n < N)%nat -> (k < N)%nat ->
+  Kdft N n ((k + (N - N / 2)) mod N)
+  = E (- (2 * PI) * (INR ((n + N / 2) mod N) - INR (N / 2)) * (INR k - INR (N / 2)) / INR N).
+Proof.
+  intros Hn Hk. unfold Kdft, W.
+  replace (- (2 * PI * INR (n * ((k + (N - N / 2)) mod N)) / INR N))
+    with (IZR (-1) * (2 * PI * INR (n * ((k + (N - N / 2)) mod N)) / INR N)) by (unfold Rdiv; ring).
+  rewrite (centred_kernel (-1) N n k Hn Hk). f_equal. unfold Rdiv. ring.
+Qed.
+
+Theorem ft2_centred_all : forall r c (m : list (list (R * R))) k l delta,
+  wf_mat r c m -> (k < r)%nat -> (l < c)%nat ->
+  nth l (nth k (ft2 O m delta) []) (czero O)
+  = cscale O (delta * delta) (bigsum (fun i => bigsum (fun j =>
+       cmul O (nth j (nth i m []) (czero O))
+         (cis O (- (2 * PI) * (INR i - INR (r / 2)) * (INR k - INR (r / 2)) / INR r
+                 + - (2 * PI) * (INR j - INR (c / 2)) * (INR l - INR (c / 2)) / INR c))) c) r).
+Proof.
+  intros r c m k l delta Hwf Hk Hl.
+  assert (Hr : (0 < r)%nat) by lia. assert (Hc : (0 < c)%nat) by lia.
+  assert (W1 : wf_mat r c (ifftshift2 m)) by (apply wf_ifftshift2; exact Hwf).
+  assert (W2 : wf_mat r c (dft2 O (ifftshift2 m))) by (apply wf_dft2; assumption).
+  assert (W3 : wf_mat r c (fftshift2 (dft2 O (ifftshift2 m)))) by (apply wf_fftshift2; exact W2).
+  assert (Hk' : ((k + (r - r / 2)) mod r < r)%nat) by (apply Nat.mod_upper_bound; lia).
+  assert (Hl' : ((l + (c - c / 2)) mod c < c)%nat) by (apply Nat.mod_upper_bound; lia).
+  unfold ft2. rewrite cscale_m_map. ncx.
+  rewrite (@ent_map_map2 (R * R) (R * R) (cscale O (nsqr O delta)) (czero O) (czero O) r c _ k l W3 Hk Hl).
+  change (nsqr O delta) with (delta * delta). f_equal.
+  rewrite (@ent_fftshift2_all (R * R) (czero O) r c _ k l W2 Hk Hl).
+  rewrite dft2_ktr. ncx.
+  rewrite (ent_tr2 Kdft r c _ _ _ W1 Hk' Hl').
+  rewrite <- (bigsum_cyclic_shift G K (fun i => bigsum (fun j =>
+       cmul O (nth j (nth i m []) (czero O))
+         (cis O (- (2 * PI) * (INR i - INR (r / 2)) * (INR k - INR (r / 2)) / INR r
+                 + - (2 * PI) * (INR j - INR (c / 2)) * (INR l - INR (c / 2)) / INR c))) c) r (r / 2)).
+  apply (bigsum_ext G K). intros i Hi. cbv beta.
+  rewrite <- (bigsum_mul_r G K).
+  rewrite <- (bigsum_cyclic_shift G K (fun j =>
+       cmul O (nth j (nth ((i + r / 2) mod r) m []) (czero O))
+         (cis O (- (2 * PI) * (INR ((i + r / 2) mod r) - INR (r / 2)) * (INR k - INR (r / 2)) / INR r
+                 + - (2 * PI) * (INR j - INR (c / 2)) * (INR l - INR (c / 2)) / INR c))) c (c / 2)).
+  apply (bigsum_ext G K). intros j Hj. cbv beta.
+  rewrite (@ent_ifftshift2_all (R * R) (czero O) r c m i j Hwf Hi Hj).
+  rewrite (Kdft_centred r i k Hi Hk), (Kdft_centred c j l Hj Hl).
+  change (cis O) with E. rewrite (E_add G K).
+  generalize (E (- (2 * PI) * (INR ((i + r / 2) mod r) - INR (r / 2)) * (INR k - INR (r / 2)) / INR r))
+             (E (- (2 * PI) * (INR ((j + c / 2) mod c) - INR (c / 2)) * (INR l - INR (c / 2)) / INR c))
+             (nth ((j + c / 2) mod c) (nth ((i + r / 2) mod r) m []) (czero O)).
+  cring.
+Qed.
+
 End C09.
+
+Print Assumptions ft_centred_all.
+Print Assumptions ft2_centred_all.
+Print Assumptions ft_roll.
+Print Assumptions ift_ft.
+Print Assumptions ft2_ift2.
